@@ -201,6 +201,20 @@ func init() {
 		*v = &cp
 		*ok = true
 	})
+	// vokmaybe: like vok, but when there is nothing to return it returns WITHOUT touching its outputs (as the
+	// repository's own test helper does): that means "no value, not ok" whatever was evaluated before
+	dyntpl.RegisterCondOKFn("vokmaybe", func(ctx *dyntpl.Ctx, v *any, ok *bool, args []any) {
+		if len(args) == 0 {
+			return
+		}
+		b, err := x2bytes.ToBytes(nil, args[0])
+		if err != nil || len(b) == 0 {
+			return
+		}
+		cp := append([]byte(nil), b...)
+		*v = &cp
+		*ok = true
+	})
 	_ = dyntpl.RegisterPool("vpool", vpool{"vpool"})
 	_ = dyntpl.RegisterPool("vpool2", vpool{"vpool2"})
 	_ = dyntpl.RegisterPool("vbuf", vbufPool{})
